@@ -126,15 +126,26 @@ def check_model(m, acc, fam, k, only_alpha=None):
                                             "got": v.bounds.as_tuple(), "want": want_bounds[i], "model": show(m)})
                 return
     tv = set()
+    # every fourth model: ONE receiver and ONE interpretation dictionary object, updated in place from assignment to assignment (the loop
+    # a caller writes when enumerating assignments); only leaves are named, so the receiver is not changed by the calls
+    shared = (k % 4 == 1)
+    recv, interp = (bind(m)[0], {}) if shared else (None, None)
+    if shared:
+        only_alpha = None          # a replay of a shared-mode case re-runs the whole history of this model
     for alpha in ref.assignments_dom(leaves):
         if only_alpha is not None and alpha != only_alpha:
             continue
-        obj, _ = bind(m)
-        case = dict(case0, alpha=alpha)
+        obj = recv if shared else bind(m)[0]
+        case = dict(case0, alpha=alpha, shared=shared)
         acc.n("traces")
         acc.n("transitions")
         try:
-            res = obj.evaluate_propositions(alpha)
+            if shared:
+                interp.clear()
+                interp.update(alpha)
+                res = obj.evaluate_propositions(interp)
+            else:
+                res = obj.evaluate_propositions(alpha)
         except BaseException as e:
             acc.violation(None, case, {"what": "evaluate_propositions raised", "exc": repr(e), "model": show(m)})
             continue
